@@ -85,7 +85,40 @@ func (e *Exec) envFor(rets []Term) *exprEnv {
 	return env
 }
 
+// implicitRequires: pointer parameters (receivers included) are non-nil unless declared nullable.
+func (g *Gen) implicitRequires(fn *ssa.Function, args []Term) []Term {
+	ct := g.w.contractOf(fn)
+	var out []Term
+	for i, p := range fn.Params {
+		if i >= len(args) {
+			break
+		}
+		pt, ok := p.Type().Underlying().(*types.Pointer)
+		if !ok {
+			continue
+		}
+		if st, _ := structOf(pt); st == nil {
+			continue
+		}
+		nullable := false
+		if ct != nil {
+			for _, n := range ct.nullable {
+				if n == p.Name() {
+					nullable = true
+				}
+			}
+		}
+		if !nullable {
+			out = append(out, "(not ((_ is nil_"+g.sortOf(p.Type())+") "+args[i]+"))")
+		}
+	}
+	return out
+}
+
 func (e *Exec) assumeRequires(ct *Contract) bool {
+	for _, t := range e.g.implicitRequires(e.fn, e.params) {
+		e.g.assert(t)
+	}
 	if ct == nil {
 		return true
 	}
@@ -373,6 +406,9 @@ func (w *World) propVCs(prop string, safe bool) []VC {
 			}
 		}
 		if !has && !safe {
+			continue
+		}
+		if fn.Name() == "init" && fn.Synthetic != "" {
 			continue
 		}
 		done[fn] = true
